@@ -24,10 +24,10 @@ MC_MaxCalls == EnvInt("V_MAXCALLS", 2)
 MC_ValidateRoots == EnvBool("V_VALIDATE_ROOTS", TRUE)
 MC_RestoreRng == EnvBool("V_RESTORE_RNG", TRUE)
 MC_Emit == EnvBool("V_EMIT", FALSE)
-\* V_EMIT_ALL=1: the input history of EVERY planning-iteration transition is emitted, not only those of
+\* V_EMIT_ALL (default on): the input history of EVERY planning-iteration transition is emitted, not only those of
 \* completed calls (TLC explores states: a history that reaches an already known model state would
 \* otherwise never be replayed, although an implementation may tell the two apart)
-EmitAll == EnvBool("V_EMIT_ALL", FALSE)
+EmitAll == EnvBool("V_EMIT_ALL", TRUE)
 
 MC_Worlds ==
   LET n == MC_T.n  w == EnvOr("V_WORLDS", "all") IN
